@@ -109,15 +109,11 @@ def ops(tier):
 # ---- known findings: narrow predicates over (exception type, innermost pyxform frame) -----------------------------------------
 FINDINGS = {
     "F4c-external-select-unfiltered": ("KeyError", "add_choices_info_to_question"),
-    "F46-osm-tag-cycle": ("RecursionError", "has_external_choices"),
-    "F47-grouped-extra-choice-column": ("AttributeError", "__no_such_site__"),     # structural predicate in classify()
 }
 FINDING_INPUTS = {
     "F4c-external-select-unfiltered": {"survey": [{"type": "select_one_external cities", "name": "c", "label": "C"}],
                                        "choices": [{"list_name": "l", "name": "a", "label": "A"}],
                                        "external_choices": [{"list_name": "cities", "name": "a", "label": "A"}]},
-    "F46-osm-tag-cycle": {"survey": [{"type": "osm zz", "name": "q1", "label": "L"}], "osm": [{"list_name": "zz", "name": "zz", "label": "l"}]},
-    "F47-grouped-extra-choice-column": {"survey": [{"type": "select_one l", "name": "q", "label": "Q"}], "choices": [{"list_name": "l", "name": "x", "label": "X", "region::code": "v"}]},
 }
 
 
@@ -139,13 +135,6 @@ def classify(crash, form=None):
     for slug, (tname, fn) in FINDINGS.items():
         if crash[0] == tname and crash[1] == fn:
             return slug
-    # a column that takes no language or sub-key, given with a `::suffix` (an extra choices column region::code, a survey column relevant::en):
-    # the cell is grouped into a nested dict like a translated column and handed to node() as an element's text
-    GROUPABLE = {"label", "hint", "image", "audio", "video", "big-image", "media", "constraint_message", "required_message", "guidance_hint", "name", "value", "list_name", "list name",
-                 "bind", "body", "control", "instance", "noapperrorstring", "no_app_error_string", "jr", "caption"}
-    if form and crash[0] in ("AttributeError", "TypeError") and "dict" in crash[2] and any(
-            ":" in str(k) and "_".join(str(k).split(":")[0].split()).lower() not in GROUPABLE for sh in ("choices", "survey") for row in form.get(sh, []) for k in row):
-        return "F47-grouped-extra-choice-column"
     return None
 
 
